@@ -20,7 +20,7 @@ PROPS = {
             'that handles can still be dropped after the panic (drop glue / unwinding is outside both verifiers)',
         ]),
     'C14': dict(
-        units=['expert', 'nodepred'], level='proof',
+        units=['expert', 'nodepred', 'edges'], level='proof',
         replays=['c14_invalid_dep_removed.rs', 'c14_callback_on_new_dependency.rs', 'c14_callback_on_valueless_child.rs'],
         uncovered=[
             'state_add_parent and the callers of remove_parent in node.rs (multi-node; opaque callees with call-site obligations); expert_swap_children_except_in_kind is under contract in unit `edges` (C11)',
@@ -52,14 +52,14 @@ PROPS = {
             'RefCell borrow panics (erased by R5)',
         ]),
     'C11': dict(
-        units=['observer', 'edges', 'nodepred', 'heightwalk'], level='other',
+        units=['observer', 'edges', 'nodepred', 'heightwalk', 'heaps'], level='other',
         replays=['c11_handler_count.incrate.rs'],
         uncovered=[
             'only two clauses are under contract: the per-node handler count, and the per-call effect of add_parent / remove_parent / expert_swap_children_except_in_kind on the index arrays of the nodes involved (an edge is recorded, removed or re-slotted symmetrically on both ends); that these calls are made for the right nodes, heights, recompute-heap membership and stats().necessary are relations across the graph and are not under contract (pinned only by a few statement-order frames)',
             'duplicate parents / duplicate children share one RefCell in the real code; the per-node `&mut` parameters of rule R5p assume distinct nodes',
         ]),
     'C07': dict(
-        units=['observer', 'var'], level='other',
+        units=['observer', 'var', 'heaps'], level='other',
         replays=[],
         uncovered=[
             '"all observers reflect one assignment of variable values" (C01-level)',
